@@ -76,4 +76,32 @@ BOOL GetExitCodeProcess(HANDLE h, DWORD *code);
 BOOL GenerateConsoleCtrlEvent(DWORD ev, DWORD group);
 BOOL TerminateProcess(HANDLE h, DWORD code);
 
+/* ---- additions for redirect.windows.c / handle.windows.c / error.windows.c (H_winredir) ---- */
+#define STD_INPUT_HANDLE ((DWORD) -10)
+#define STD_OUTPUT_HANDLE ((DWORD) -11)
+#define STD_ERROR_HANDLE ((DWORD) -12)
+#define GENERIC_READ 0x80000000u
+#define GENERIC_WRITE 0x40000000u
+#define FILE_SHARE_READ 1u
+#define FILE_SHARE_WRITE 2u
+#define OPEN_ALWAYS 4u
+#define FILE_ATTRIBUTE_NORMAL 0x80u
+#define ERROR_INVALID_HANDLE 6
+#define ERROR_INVALID_PARAMETER 87
+#define ERROR_BROKEN_PIPE 109
+#define WAIT_TIMEOUT 258
+#define FORMAT_MESSAGE_FROM_SYSTEM 0x1000u
+#define FORMAT_MESSAGE_IGNORE_INSERTS 0x200u
+#define MAKELANGID(p, s) ((((WORD) (s)) << 10) | (WORD) (p))
+#define LANG_NEUTRAL 0
+#define SUBLANG_DEFAULT 1
+#define CP_UTF8 65001u
+#define __declspec(x) __thread
+HANDLE GetStdHandle(DWORD id);
+HANDLE CreateFileW(LPCWSTR path, DWORD access, DWORD share, SECURITY_ATTRIBUTES *sa, DWORD disposition, DWORD attributes,
+                   HANDLE templ);
+BOOL CloseHandle(HANDLE h);
+DWORD FormatMessageW(DWORD flags, const void *src, DWORD id, DWORD lang, wchar_t *buf, DWORD size, void *args);
+int WideCharToMultiByte(unsigned cp, DWORD flags, const wchar_t *w, int nw, char *s, int ns, const char *d, BOOL *used);
+
 #endif
